@@ -6,6 +6,7 @@
 mod c04;
 mod c05;
 mod c08;
+mod c09;
 mod ckey;
 mod crash;
 mod c12;
@@ -71,6 +72,8 @@ fn main() {
         ("c05", "gen") => c05::gen(&args),
         ("c05", "exec") => c05::exec(&args),
         ("c08", "gen") => c08::gen(&args),
+        ("c09", "gen") => c09::gen(&args),
+        ("c09", "exec") => c09::exec(&args),
         ("ckey", "gen") => ckey::gen(&args),
         ("store", "gen") => store::gen(&args),
         ("crash", "gen") => crash::gen(&args),
